@@ -354,9 +354,27 @@ func vc04ReqInfo(c vc04Client, req *dns.Msg) (ri *agd.RequestInfo) {
 	return ri
 }
 
+// vc04ServerRW is the client-facing response writer: it keeps a copy of what
+// was written and then edits the written message in place as the UDP server does
+// with a response that does not fit (see vdns.ServerEdits).
+type vc04ServerRW struct {
+	dnsserver.ResponseWriter
+
+	got *dns.Msg
+}
+
+func (w *vc04ServerRW) WriteMsg(_ context.Context, _, resp *dns.Msg) (err error) {
+	w.got = resp.Copy()
+	vdns.ServerEdits(resp)
+
+	return nil
+}
+
+func (w *vc04ServerRW) Msg() (m *dns.Msg) { return w.got }
+
 func vc04EcsExchange(t *rapid.T, h dnsserver.Handler, c vc04Client, req *dns.Msg) (resp *dns.Msg) {
 	addr := &net.UDPAddr{IP: c.Remote.AsSlice(), Port: 5353}
-	nrw := dnsserver.NewNonWriterResponseWriter(addr, addr)
+	nrw := &vc04ServerRW{ResponseWriter: dnsserver.NewNonWriterResponseWriter(addr, addr)}
 	ctx := agd.ContextWithRequestInfo(context.Background(), vc04ReqInfo(c, req))
 	err := h.ServeDNS(ctx, nrw, req)
 	// A handler error (the server then answers SERVFAIL) and a handler that
@@ -485,7 +503,7 @@ func TestVerifC04EcsHistory(t *testing.T) {
 
 				q = vc04Query{
 					name:   name,
-					qt:     rapid.SampledFrom([]uint16{dns.TypeA, dns.TypeA, dns.TypeAAAA, dns.TypeTXT, dns.TypeHTTPS, dns.TypeHTTPS, 97, 321, dns.TypeMX}).Draw(t, "qt"),
+					qt:     rapid.SampledFrom([]uint16{dns.TypeA, dns.TypeA, dns.TypeAAAA, dns.TypeTXT, dns.TypeHTTPS, dns.TypeHTTPS, 97, 321, dns.TypeMX, dns.TypeSRV, dns.TypeSRV, dns.TypePTR}).Draw(t, "qt"),
 					qc:     rapid.SampledFrom([]uint16{dns.ClassINET, dns.ClassINET, dns.ClassINET, dns.ClassCHAOS}).Draw(t, "qc"),
 					do:     rapid.IntRange(0, 3).Draw(t, "do") == 0,
 					client: vc04DrawClient(t),
